@@ -182,3 +182,14 @@ CASES += [
     {"name": "is_diagonal touches the managed data and then uses the storage", "kind": "twin", "edits": [
         (_OP4, "        dat = self.data.copy()\n        for i in range(self.dim):\n            dat[i,i] = 0.0\n", "        self.data\n        dat = self._data.copy()\n        for i in range(self.dim):\n            dat[i,i] = 0.0\n", 1)]},
 ]
+
+CASES += [
+    t("stacked transformations: locals renamed, product written with @", M,
+      "                    ZZ = self.basis_transformations[sl-k]\n\n                    # included it into the transformation matrix\n                    SS = numpy.dot(ZZ,SS)                ",
+      "                    Zk = self.basis_transformations[sl-k]\n\n                    # included it into the transformation matrix\n                    SS = Zk @ SS"),
+    t("stacked transformations: element of the stack used directly", M,
+      "                    SS = numpy.dot(ZZ,SS)                ",
+      "                    SS = numpy.dot(self.basis_transformations[sl-k],SS)"),
+    m("stacked transformations walked from the bottom of the stack", "C04-B5", M,
+      "                    ZZ = self.basis_transformations[sl-k]\n", "                    ZZ = self.basis_transformations[k]\n"),
+]
